@@ -16,7 +16,6 @@ def parseTE (s : String) : List Nat × List Nat :=
   | [t, e] => (plusList t, plusList e)
   | _ => ([], [])
 
-def sortNats (l : List Nat) : List Nat := (l.toArray.qsort (· < ·)).toList
 
 def rmTargets (n : Nat) (s : RmSt) (T E : List Nat) : List Nat :=
   sortNats (apply s.st T E (fun x => s.live.contains x) (List.range n))
